@@ -19,6 +19,9 @@ def witness_rule(ctx, rule, prop, only=None):
         else:
             codes = w.get("codes", [])
             ok = w.get("exit") != 0 and (exp in codes or (exp == "fail" and codes))
+            if exp.startswith("msg:"):
+                # region errors carry no code: expect the message instead ("lifetime may not live long enough")
+                ok = w.get("exit") != 0 and any(exp[4:].strip() in m for m in w.get("messages", []))
             if ok:
                 detail = f"rejected with {exp} (as it must)"
             elif w.get("exit") == 0:
